@@ -628,8 +628,15 @@ class Connection(ExportImport):
                 blobfilename = obj._uncommitted()
                 if blobfilename is None:
                     assert serial is not None  # See _uncommitted
-                    if not new:
-                        self._modified.pop()  # not modified
+                    if new:
+                        # A new object always gets a record.  (A blob
+                        # that was new in an aborted transaction and whose
+                        # data a savepoint had taken: the data went with
+                        # that transaction.)
+                        raise ZODB.interfaces.BlobError(
+                            "A new blob has lost its data: %s" %
+                            oid_repr(oid))
+                    self._modified.pop()  # not modified
                     continue
                 try:
                     s = self._storage.storeBlob(oid, serial, p, blobfilename,
